@@ -5316,6 +5316,8 @@ class DecRule:
 
         if self.model is not rvar.model.top:
             raise ValueError('Models mismatch.')
+        if rvar.model.mtype != 'S':
+            raise TypeError('Adaptation requires a random variable.')
 
         num_rand = self.model.sup_model.vars[-1].last
         if self.depend is None:
